@@ -107,13 +107,14 @@ type found struct {
 	mode  string
 	count int
 	idx   int
+	seed  uint64
 }
 
 func coarseSig(v Violation) string {
 	return v.Prop + "|" + v.Oracle + "|" + coarse(strings.TrimPrefix(v.Sig, v.Oracle+":"))
 }
 
-func (a *agg) add(prop, mode string, idx int, rep *RunReport) {
+func (a *agg) add(prop, mode string, idx int, seed uint64, rep *RunReport) {
 	a.mu.Lock()
 	defer a.mu.Unlock()
 	a.runs++
@@ -168,11 +169,11 @@ func (a *agg) add(prop, mode string, idx int, rep *RunReport) {
 		k := coarseSig(v)
 		f := a.viol[k]
 		if f == nil {
-			a.viol[k] = &found{v: v, sc: sc, mode: mode, count: 1, idx: idx}
+			a.viol[k] = &found{v: v, sc: sc, mode: mode, count: 1, idx: idx, seed: seed}
 		} else {
 			f.count++
 			if idx < f.idx {
-				f.v, f.sc, f.mode, f.idx = v, sc, mode, idx
+				f.v, f.sc, f.mode, f.idx, f.seed = v, sc, mode, idx, seed
 			}
 		}
 	}
@@ -238,7 +239,7 @@ func runMain(args []string) {
 			defer wg.Done()
 			for j := range ch {
 				rep := safeRun(func() *RunReport { return j.mode.Run(bin, j.seed) })
-				a.add(*prop, j.mode.Name, j.idx, rep)
+				a.add(*prop, j.mode.Name, j.idx, j.seed, rep)
 			}
 		}()
 	}
@@ -289,6 +290,20 @@ func runMain(args []string) {
 		// confirm in a fresh process
 		confirmed := confirmReplay(path)
 		fmt.Printf("violation: %s\n", oneLine(f.v.String(), 1200))
+		if !confirmed && mode != nil {
+			// The recorded schedule did not reproduce it. If the sample (same
+			// seed, regenerated) shows the same violation class again, the
+			// nondeterminism sits inside the simulated process (e.g. its
+			// garbage collector deciding when a finalizer closes a descriptor):
+			// the violation is real and is reported, with that caveat.
+			for attempt := 0; attempt < 2 && !confirmed; attempt++ {
+				rep := safeRun(func() *RunReport { return mode.Run(bin, f.seed) })
+				confirmed = hasViolation(rep, coarseSig(f.v), *prop)
+			}
+			if confirmed {
+				fmt.Printf("note: %s does not reproduce from its recorded schedule but does from its seed (%d): a source of nondeterminism inside the simulated ergo process takes part\n", path, f.seed)
+			}
+		}
 		if !confirmed {
 			fmt.Printf("note: replay of %s in a fresh process did not reproduce the same violation class; reporting as harness trouble\n", path)
 			exit = 2
